@@ -2,7 +2,7 @@
 # tools/seed_matrix.sh [name...]: runs every quick check against every seeded change (scratch worktree per change,
 # VERIF_REPO); appends "<name> <property> rc=<rc> violations=<n> <first violation>" lines to .work/seed_matrix.txt.
 cd "$(dirname "$0")/.."
-names="$@"; [ -z "$names" ] && names=$(ls seeded | grep -v go.mod)
+names="$@"; [ -z "$names" ] && names=$(for d in $(ls seeded | grep -v go.mod); do [ -f seeded/$d/RETIRED.md ] || echo $d; done)
 one() {
   N=$1
   WT=/tmp/seedmx-$N
@@ -19,4 +19,4 @@ one() {
   rm -rf .work/seedmx-ev-$N bin/vcheck*._tmp_seedmx_${N//-/_}_
 }
 export -f one
-echo $names | tr ' ' '\n' | xargs -P 3 -I{} bash -c 'one {}'
+echo $names | tr ' ' '\n' | xargs -P 4 -I{} bash -c 'one {}'
